@@ -1,10 +1,12 @@
 import SygmaModel.Drv.C02
+import SygmaModel.Drv.C13
 import SygmaModel.Drv.C14
 namespace Sygma.Drv
 
 def dispatch (prop op : String) (args : List String) (impl : String) : Option Verdict :=
   match prop with
   | "C02" => C02.handle op args impl
+  | "C13" => C13.handle op args impl
   | "C14" => C14.handle op args impl
   | _ => none
 
